@@ -25,6 +25,11 @@ database (the unchanged tree refuses all three and changes nothing); the oracle 
 evaluated on the tables as they stand after every command that changed them, and
 at the end: rows must trace back to their interval's data at the grid step NOW
 stored, and their levels must belong to discrete_zeta as it is NOW.
+Large records (oracle only, rec['oracle_only']; not sent to Coq): an interstorm interval of > 4096 ten-minute samples
+whose every pair of samples crosses a grid level (crossings in the pairs straddling samples 1000 / 1024 / 2048 / 4096),
+grids of > 10000 levels through the command line (fine step; a record spanning > 10 m) and through
+populate_zeta_grid (up to 65800 levels; steps coarser than the range); 1 s / 2 s logging at epochs 1.6e9 .. 4e9
+(these small ones go through Coq as well).
 """
 import math
 import os
@@ -150,6 +155,7 @@ def oracle_curve(t, kind, iv, rows, view):
     step = t['grid'][0]
     want_type = 'storm' if kind == 'rise' else 'interstorm'
     cache = {}
+    in_grid = set(t['dz'])
     for start, k, m in rows:
         if start not in cache:
             s = own_series(t, kind, start)
@@ -172,7 +178,7 @@ def oracle_curve(t, kind, iv, rows, view):
                           '' if kind != 'rise' else ' [the segment from depth 0 at its initial level %r to its storm\'s '
                           'total rain depth %r mm (summed over the storm\'s rainfall_intensity rows) at its final '
                           'level %r]' % (y[0], float(x[1]), y[1])))
-        if k not in set(t['dz']):
+        if k not in in_grid:
             bad.append('%s row (%s, level %s): level is not in discrete_zeta' % (kind, start, k))
     if len({(s, k) for s, k, _ in rows}) != len(rows):
         bad.append('%s: duplicated (start_epoch, level)' % kind)
@@ -199,10 +205,17 @@ def oracle_grid(zetas, step, dz):
         bad.append('discrete_zeta is not a contiguous range: %s' % dz[:10])
     Y = [F(z / step) for z in zetas]
     lo, hi = min(Y), max(Y)
+    in_grid = set(dz)
+    missing = 0
     for k in range(math.floor(lo) - 1, math.ceil(hi) + 2):
-        if lo <= k < hi and k not in dz:
+        if lo <= k < hi and k not in in_grid:
+            missing += 1
+            if missing > 3:
+                continue
             bad.append('level %d lies within the observed range [%r, %r) but is not in the grid' %
                        (k, float(lo), float(hi)))
+    if missing > 3:
+        bad.append('%d levels within the observed range are not in the grid (%d levels stored)' % (missing, len(dz)))
     if dz:
         if not (dz[0] <= lo and hi <= dz[-1] + 1):
             bad.append('observed range [%r, %r] (scaled) not covered by grid cells %d..%d'
@@ -377,6 +390,43 @@ def check_history(r, rec, hist, case, out):
             break       # later states of the same history repeat the complaint
 
 
+def measure_large(t, r, out):
+    """What a large record exercised, measured on the tables: samples of the longest classified interval, its pairs
+    of samples straddling a multiple of a block size (counted from the interval's first sample) that cross a grid
+    level, levels of the grid, curve rows."""
+    out.count('CL-large')
+    for lim in (10000, 16384):
+        if len(t['dz']) > lim:
+            out.count('CL-large:grid-levels->%d' % lim)
+    if not t['grid']:
+        return
+    step = t['grid'][0]
+    longest = None
+    for s, th, ty in t['zi']:
+        if ty == 'interstorm':
+            ys = [z for e, z in t['wl'] if s <= e <= th]
+            if longest is None or len(ys) > len(longest):
+                longest = ys
+    if longest:
+        for lim in (1024, 4096, 8192):
+            if len(longest) > lim:
+                out.count('CL-large:interstorm-interval-samples->%d' % lim)
+        c = [math.ceil(v / step) for v in longest]
+        for b in G.BLOCK_SIZES:
+            m = sum(1 for p in range(b, len(c), b) if c[p] != c[p - 1])
+            if m:
+                out.count('CL-large:seam-pairs-of-block-%d-crossing-a-level' % b, m)
+        steep = max([abs(a - b) for a, b in zip(c, c[1:])] + [0])
+        for lim in (512, 4096, 10000):
+            if steep > lim:
+                out.count('CL-large:pair-across->%d-levels' % lim)
+    for kind, res in (('rise', r['rise']), ('recession', r['rece'])):
+        if res[0] == 'ok':
+            for lim in (1000, 10000):
+                if len(res[2]) > lim:
+                    out.count('CL-large:%s-rows->%d' % (kind, lim))
+
+
 def check_cl(cases, out, label):
     rise_strs, rece_strs, grid_strs, rise_meta, rece_meta, grid_meta = [], [], [], [], [], []
     view_items = []
@@ -396,7 +446,12 @@ def check_cl(cases, out, label):
                               % (r['stage'], type(r['exc']).__name__, r['exc'], rec['cls']), case=case)
             continue
         t = r['t']
-        view_items.append((r['views'], case))
+        # large records (long intervals, grids of > 10000 levels): judged by the oracle only, not sent to Coq
+        oracle_only = bool(rec.get('oracle_only'))
+        if oracle_only:
+            measure_large(t, r, out)
+        else:
+            view_items.append((r['views'], case))
         if t['rain']:
             dt = t['rain'][0][1] - t['rain'][0][0]
             out.count('time-step:%s' % ('whole hours' if dt % 3600 == 0 else 'whole minutes' if dt % 60 == 0
@@ -412,7 +467,7 @@ def check_cl(cases, out, label):
             if tamper is None:
                 for msg in oracle_grid(zetas, t['grid'][0], t['dz'])[:3]:
                     out.violation('oracle', 'set-zeta-grid -d %r: %s' % (t['grid'][0], msg), case=case)
-            if tamper in (None, 'swap-pairing', 'drop-storm', 'retype-interval', 'retype-rise'):
+            if tamper in (None, 'swap-pairing', 'drop-storm', 'retype-interval', 'retype-rise') and not oracle_only:
                 grid_strs.append('(%s, %s, (Ok %s))' % (C.cfloats(zetas), C.cfloat(t['grid'][0]), C.cZs(t['dz'])))
                 grid_meta.append(case)
             lo, hi = min(zetas) / t['grid'][0], max(zetas) / t['grid'][0]
@@ -451,6 +506,8 @@ def check_cl(cases, out, label):
                         out.violation('oracle', '`spowtd %s` raised %s although %d classified intervals cross '
                                       'grid levels and %d levels are shared by two of them'
                                       % (kind, res[2], n_cross, len(shared_levels)), case=case)
+            if oracle_only:
+                continue        # the oracle above is what judges these
             strs.append('(%s, %s)' % (ctables(t), ccurve(res)))
             meta.append((case, res))
         if r['history'] is not None:
@@ -519,9 +576,11 @@ def check_grid(cases, out, label):
     for c in cases:
         zetas, step = [float(z) for z in c['zetas']], float(c['step'])
         case = dict(level='FL-grid', zetas=zetas, step=step)
+        if c.get('kind'):
+            case['kind'] = c['kind']
         res = impl_grid(zetas, step)
         out.evaluations += 1
-        out.count('FL-grid')
+        out.count('FL-grid' + (':' + c['kind'] if c.get('kind') else ''))
         if res[0] == 'ok':
             for msg in oracle_grid(zetas, step, res[1])[:3]:
                 out.violation('oracle', 'populate_zeta_grid(levels=%s, step=%r): %s' % (zetas, step, msg), case=case)
@@ -529,10 +588,20 @@ def check_grid(cases, out, label):
             if lo == math.floor(lo) or hi == math.floor(hi):
                 out.count('FL-grid:bound-on-level')
                 out.nontriv(('g', tuple(zetas), step))
+            if c.get('kind'):
+                # grids of > 10000 levels / coarser than the range: oracle only (not sent to Coq)
+                for lim in (10000, 16384, 32768, 65536):
+                    if len(res[1]) > lim:
+                        out.count('FL-grid:levels->%d' % lim)
+                if len(res[1]) <= 1:
+                    out.count('FL-grid:step-coarser-than-range:%d-levels' % len(res[1]))
+                continue
             strs.append('(%s, %s, (Ok %s))' % (C.cfloats(zetas), C.cfloat(step), C.cZs(res[1])))
         elif zetas:
             out.violation('oracle', 'populate_zeta_grid raised %s on levels=%s step=%r' % (res[1], zetas, step),
                           case=case)
+            if c.get('kind'):
+                continue
             strs.append('(%s, %s, (Err %s))' % (C.cfloats(zetas), C.cfloat(step), res[1]))
         else:
             out.count('FL-grid:empty-table')
@@ -584,8 +653,30 @@ def run(ctx, out):
         rec = G.gen_curve_record(srng, G.DS_CLASSES[k % len(G.DS_CLASSES)], odd_steps=odd, open_in_storm=k % 2 == 0)
         hist = srng.choice([g for g in G.GRID_STEPS if g != rec['grid']]) if k % 8 == 5 else None
         cases.append((rec, None, hist))
+    # 1 s and 2 s logging at present-day and post-2038 epochs (1.6e9 .. 4e9, across 2^31): neighbouring epochs differ
+    # by less than 1e-9 relative; the rise / recession rows must still be filed under their own sample (own stream)
+    prng = C.rng_for(seed, PROP, 'seconds-today')
+    for k in range(6 if tier == 'quick' else 36):
+        sec = 1 if k % 2 == 0 else 2
+        t0 = prng.choice([1600000000, 1700000000, 1893456000, 2147483600] if sec == 1 and k % 4 == 0
+                         else [2147483600, 2200000000, 2524608000, 3999990000])
+        rec = G.gen_curve_record(prng, G.DS_CLASSES[k % len(G.DS_CLASSES)], odd_steps=sec, open_in_storm=k % 3 == 0,
+                                 t0=t0 + prng.randrange(0, 3600))
+        rec['cls'] += ':epoch-%.1e' % rec['t0']
+        cases.append((rec, None, None))
+    # large records, ORACLE ONLY (own stream): one interstorm interval of > 4096 samples (10-minute steps, a month)
+    # whose every pair of samples crosses a grid level; grids of > 10000 levels (fine step / a record spanning > 10 m)
+    lrng = C.rng_for(seed, PROP, 'large')
+    longs = [lrng.randrange(4200, 5200)] if tier == 'quick' else [lrng.randrange(4200, 5200), lrng.randrange(1100, 2000),
+                                                                   lrng.randrange(8300, 9000), lrng.randrange(2100, 4000)]
+    for n in longs:
+        cases.append((G.gen_long_recession_record(lrng, n), None, None))
+    for kind in (['fine', 'deep'] if tier == 'quick' else ['fine', 'deep'] * 4):
+        cases.append((G.gen_large_grid_record(lrng, kind), None, None))
     check_cl(cases, out, 'cl')
     gcases = [gen_grid_case(rng) for _ in range(ngrid)] + [dict(zetas=[], step=1.0)]
+    gkinds = ['fine', 'deep', 'coarse', 'coarse']
+    gcases += [G.gen_large_grid_case(lrng, gkinds[k % 4]) for k in range(8 if tier == 'quick' else 40)]
     check_grid(gcases, out, 'fl_grid')
     out.rule = ('CL: synthetic records with 1-5 storms each followed by a decaying recession returning to about '
                 'the same level (classes decay / storms with unexplained rises / sparse / record bounds on a grid '
@@ -593,8 +684,15 @@ def run(ctx, out):
                 'classify, set-zeta-grid, rise, recession; one case in four has its classification tables '
                 'tampered with by SQL (12 kinds); 24 further untampered records (x10 thorough) have time steps of 90, 100, 450, 30, 45, 7, 1000 s (not whole minutes), 3900, 5400 s (not whole hours) and / or open in heavy rain with a matched storm in the first rainfall time slice of the database; two untampered cases in seven continue with the history `set-zeta-grid -d <another '
                 'step>`, `rise`, `recession` (each may refuse) and the same oracle is evaluated on every state the tables '
-                'pass through (grid step now stored, discrete_zeta now stored). FL: populate_zeta_grid on 1-5 levels with bounds on / beside a '
-                'grid level. Non-trivial: an untampered dataset whose rise curve and recession curve each have a '
+                'pass through (grid step now stored, discrete_zeta now stored). 6 records (36 thorough) logged every 1 s / 2 s at '
+                'epochs 1.6e9 .. 4e9 (across 2^31), where neighbouring epochs differ by < 1e-9 relative. LARGE records, '
+                'ORACLE ONLY (not sent to Coq; the exact-fraction oracle of every row and of the grid judges them): one '
+                '(4 thorough) 10-minute record with an interstorm interval of 4200-5200 samples (thorough also > 1024, > 2048, > 8192) whose EVERY pair of '
+                'consecutive samples crosses a grid level (saw-tooth on a decline: the pairs straddling samples 1000, '
+                '1024, 2048, 4096 of the interval included; measured CL-large:seam-pairs-*), one record with a fine grid '
+                'step (0.05 .. 0.001 mm: 10500-30000 levels) and one whose level falls > 10 m between two samples of a '
+                'dry spell (1 / 0.5 mm: > 10000 levels, one pair crossing all of them). FL: populate_zeta_grid on 1-5 levels with bounds on / beside a '
+                'grid level; 8 (40 thorough) oracle-only grids of 10001 .. 65800 levels (fine step, deep record) or with a step of 250 .. 10000 mm, coarser than the range. Non-trivial: an untampered dataset whose rise curve and recession curve each have a '
                 'level shared by >= 2 intervals (CL), a bound exactly on a grid level (FL); distinct by the data.')
     out.samples = [dict(level='CL', rec=cases[0][0], tamper=None, history=cases[0][2]), dict(level='FL-grid', **gcases[0])]
     out.assumptions += [
@@ -615,4 +713,4 @@ def replay(case, out):
     if case['level'] == 'CL':
         check_cl([(case['rec'], case.get('tamper'), case.get('history'))], out, 'replay')
     else:
-        check_grid([dict(zetas=case['zetas'], step=case['step'])], out, 'replay')
+        check_grid([dict(zetas=case['zetas'], step=case['step'], kind=case.get('kind'))], out, 'replay')
